@@ -2002,6 +2002,80 @@ func genAgreement(fset *token.FileSet, f *ast.File, af absFile, tinfo *types.Inf
 		}
 		return ""
 	}
+	// data flow inside each generated function: a message the function allocates and returns has been handed to a
+	// call first (MsgRecv / Invoke fill it; otherwise the caller gets an empty message), and every named parameter
+	// is used (a message parameter that is never passed on is never sent)
+	for _, d := range f.Decls {
+		fd, ok := d.(*ast.FuncDecl)
+		if !ok || fd.Body == nil {
+			continue
+		}
+		fresh := map[string]token.Pos{}
+		ast.Inspect(fd.Body, func(n ast.Node) bool {
+			as, ok := n.(*ast.AssignStmt)
+			if !ok || len(as.Lhs) != 1 || len(as.Rhs) != 1 {
+				return true
+			}
+			id, isID := as.Lhs[0].(*ast.Ident)
+			call, isCall := as.Rhs[0].(*ast.CallExpr)
+			if !isID || !isCall {
+				return true
+			}
+			if fn, ok := call.Fun.(*ast.Ident); ok && fn.Name == "new" && len(call.Args) == 1 {
+				fresh[id.Name] = as.Pos()
+			}
+			return true
+		})
+		passed := map[string]token.Pos{} // first position at which the name is an argument of a call
+		used := map[string]bool{}
+		ast.Inspect(fd.Body, func(n ast.Node) bool {
+			switch x := n.(type) {
+			case *ast.Ident:
+				used[x.Name] = true
+			case *ast.CallExpr:
+				for _, a := range x.Args {
+					if id, ok := a.(*ast.Ident); ok {
+						if p, seen := passed[id.Name]; !seen || x.Pos() < p {
+							passed[id.Name] = x.Pos()
+						}
+					}
+				}
+			}
+			return true
+		})
+		bad, badLine := "", 0
+		ast.Inspect(fd.Body, func(n ast.Node) bool {
+			r, ok := n.(*ast.ReturnStmt)
+			if !ok {
+				return true
+			}
+			for _, res := range r.Results {
+				id, ok := res.(*ast.Ident)
+				if !ok {
+					continue
+				}
+				if at, isFresh := fresh[id.Name]; isFresh && at < r.Pos() {
+					if p, was := passed[id.Name]; !was || p > r.Pos() {
+						bad = fmt.Sprintf("%s returns %s, which it allocated with new(...), without having passed it to any call (MsgRecv or Invoke fill it): the caller receives an empty message", fd.Name.Name, id.Name)
+						badLine = fset.Position(r.Pos()).Line
+					}
+				}
+			}
+			return true
+		})
+		if bad != "" {
+			return bad, badLine
+		}
+		if fd.Type.Params != nil {
+			for _, fl := range fd.Type.Params.List {
+				for _, nm := range fl.Names {
+					if nm.Name != "_" && !used[nm.Name] {
+						return fmt.Sprintf("%s never uses its parameter %s (a message or context that is accepted and then dropped)", fd.Name.Name, nm.Name), fset.Position(nm.Pos()).Line
+					}
+				}
+			}
+		}
+	}
 	type row struct {
 		rpc, method string
 		line        int
